@@ -15,6 +15,7 @@ import (
 	"verif/sess"
 	"verif/vs"
 	"verif/vs/vnet"
+	"verif/vs/vtime"
 )
 
 func init() { Registry["C17"] = C17 }
@@ -24,7 +25,7 @@ type c17Scn struct {
 	MsgsB   int `json:"msgs_b"`  // messages B -> A
 	Size    int `json:"size"`    // 0 small (2 chunks), 1 three chunks, 2 about twenty chunks
 	Latency int `json:"latency"` // index into c17Latencies (virtual time per Write)
-	TxBuf   int `json:"txbuf"`   // 0 transport without TxBufferLen, 1 reports 0, 2 reports more than remains, 3 reports a draining queue
+	TxBuf   int `json:"txbuf"`   // 0 transport without TxBufferLen, 1 reports 0, 2 reports more than remains, 3 reports a draining queue, 4 likewise and Flush blocks for 600 ms
 	// Offset > 0: station B is a scripted CMS-style remote that accepts A's (single) proposal at this
 	// offset ("FS !n", or "FS An" if OffA) - the resumed-transfer path of the sender
 	LongSubject bool  `json:"long_subject,omitempty"` // subjects of 110 characters: longer than the 80-byte title field of the transfer
@@ -186,6 +187,15 @@ type txConn struct {
 
 func (t txConn) TxBufferLen() int { return t.f() }
 
+// flushConn is a radio-style transport: it reports its transmit queue and its Flush blocks until the
+// queue has gone over the air (longer than two of the Session's status ticks).
+type flushConn struct{ txConn }
+
+func (t flushConn) Flush() error {
+	vtime.Sleep(600 * time.Millisecond)
+	return nil
+}
+
 type c17Obs struct {
 	recs     []statusRec
 	errs     [2]error
@@ -208,6 +218,14 @@ func c17Harness(sc c17Scn, o *c17Obs) func() {
 				conns[i] = txConn{c, func() int { return 0 }}
 			case 2:
 				conns[i] = txConn{c, func() int { return 1 << 20 }}
+			case 4:
+				n := 900
+				conns[i] = flushConn{txConn{c, func() int {
+					if n > 0 {
+						n -= 150
+					}
+					return n
+				}}}
 			default:
 				n := 900
 				conns[i] = txConn{c, func() int {
@@ -388,6 +406,12 @@ func C17(args []string) {
 	for _, m := range [][2]int{{1, 0}, {2, 0}, {1, 1}} {
 		for _, lat := range []int{0, 1} {
 			scns = append(scns, c17Scn{MsgsA: m[0], MsgsB: m[1], Size: 1, Latency: lat, LongSubject: true})
+		}
+	}
+	// a transport with a blocking Flush and a transmit queue (as the radio transports have)
+	for _, m := range [][2]int{{1, 0}, {1, 1}} {
+		for _, lat := range []int{0, 1} {
+			scns = append(scns, c17Scn{MsgsA: m[0], MsgsB: m[1], Size: 1, Latency: lat, TxBuf: 4})
 		}
 	}
 	// the sender's resumed-transfer path: a scripted remote accepts the proposal at an offset
